@@ -66,6 +66,7 @@ def sym_time(eng, pfx, ylo, yhi):
 
 class C03(Check):
     id = 'C03'
+    crosshair = ['c03_compare_orders_like_seconds']      # thorough tier: the same property as a PEP-316 contract analysed by CrossHair (xh/contracts.py)
     title = 'Timestamps convert to and from epoch seconds without drifting or deforming'
     functions = ['ObsTime.readUnixTime', 'ObsTime.toAbsTime', 'ObsTime.__eq__/__lt__/__gt__/__le__/__ge__',
                  'ObsTime.addSec/addMin/addHour/addDay', 'ObsTime.isLeapYear']
